@@ -133,7 +133,8 @@ def family_strategies():
                                          op=st.integers(0, len(VECTOR_OPS) - 1), bc=bc_strategy(SIDES_VEC)))
     pde_req = st.fixed_dictionaries(dict(
         common, kind=st.sampled_from(["pde_rate", "pde_rhs", "pde_rhs", "pde_rhs_numpy", "pde_solve", "pde_solve_numba"]),
-        eq=st.sampled_from(PDES + ["expr-const", "expr-two-ops"]), p=st.sampled_from([1.0, 2.0, 0.5]),
+        eq=st.sampled_from(PDES + ["expr-const", "expr-two-ops", "expr-userfunc", "expr-userfunc"]),
+        p=st.sampled_from([1.0, 2.0, 0.5]),
         bc=bc_strategy(), bc2=bc_strategy(), reuse=st.sampled_from([True, True, True, False])))
     expr_req = st.fixed_dictionaries({"kind": st.just("expr"), "text": st.sampled_from(
         ["a*x + b", "a*x**2 + b", "sin(a*x) + b", "a + b*x"]), "a": st.sampled_from([1.0, 2.0]),
@@ -454,6 +455,10 @@ def evaluate(req, store):
     raise ValueError(f"unknown request kind {kind}")
 
 
+def _boost(x):
+    return 0.5 * x
+
+
 def build_eq(req, spec, store):
     import pde
 
@@ -478,6 +483,12 @@ def build_eq(req, spec, store):
         eq = pde.KPZInterfacePDE(nu=p, bc=bc)
     elif name == "expr-const":
         eq = pde.PDE({"c": "laplace(c) + k * c"}, bc=bc, consts={"k": p})
+    elif name == "expr-userfunc":
+        # ONE dictionary of user functions per process, handed to every such equation (after missed seed
+        # C04-5: a compilation merged the operators of that equation - with its boundary conditions - into
+        # the caller's dictionary, where the next equation found them)
+        ufs = store.setdefault("user_funcs", {"boost": _boost})
+        eq = pde.PDE({"c": f"{p} * laplace(c) + boost(c)"}, bc=bc, user_funcs=ufs)
     else:
         eq = pde.PDE({"c": "laplace(c) - gradient_squared(c)"}, bc=bc,
                      bc_ops={"c:gradient_squared": bc2})
